@@ -189,6 +189,68 @@ Theorem C09_list_elements_partial :
 Proof. exact list_elements. Qed.
 Print Assumptions C09_list_elements_partial.
 
+(** Where tokens are consumed in a loop (list elements, program arguments) a null head — the state
+    after an unterminated quote (C09_unterminated_quote_is_error: head None, SYNTAX_ERROR) as well as
+    a missing token — on a line that is not blank and not a continuation line is never skipped: the
+    element parser is asked and the instruction is rejected. *)
+Theorem C09_loops_report_invalid_head :
+  forall (alnum : N -> bool) (fuel : nat) (acc : list element) (ts : tstream),
+    ts_head ts = None -> tp_is_at_eol ts = false ->
+    text_eqb (strip_py (ts_remaining_part_of_current_line ts)) [BSL] = false ->
+    list_loop alnum (S fuel) acc ts = Raise ExInvalidArg /\ args_loop alnum (S fuel) acc ts = Raise ExInvalidArg.
+Proof. exact list_loop_null_head_is_error. Qed.
+Print Assumptions C09_loops_report_invalid_head.
+
+(** Before a75c6db a lexer that had reached end of file stayed there.  Witness  <<E NL ' NL E NL b NL '
+    (the quote of the body line is closed by the last character of the source): after the look-ahead
+    has run to the end of the source and the stream is re-positioned on the body line, the old consume
+    delivers no token; the repaired one delivers the token on that line. *)
+Theorem C09_prefix_sticky_eof_refuted :
+  exists src : text,
+    match ts_init src with
+    | Ok t0 =>
+        match ts_consume t0 with
+        | Ok (_, t1) =>
+            match ts_consume_line true t1 with
+            | Ok (_, t2) =>
+                match ts_consume_line_with ts_consume_sticky relex_lexer_blank false t2, ts_consume_line false t2 with
+                | Ok (l1, old), Ok (l2, new) =>
+                    l1 = l2 /\ ts_position old = ts_position new /\ ts_head old = None /\ look_ahead_state old = LA_NULL /\
+                    exists tk, ts_head new = Some tk
+                | _, _ => False
+                end
+            | Raise _ => False
+            end
+        | Raise _ => False
+        end
+    | Raise _ => False
+    end.
+Proof. exists [60; 60; 69; 10; 39; 10; 69; 10; 98; 10; 39]%N. vm_compute. repeat split. eexists. reflexivity. Qed.
+Print Assumptions C09_prefix_sticky_eof_refuted.
+
+(** Before fbeae85 the rest of a line that is blank for Python but is the look-ahead token for the
+    lexer was not re-lexed.  Witness  :> NBSP NL b : after the text has been consumed the old code
+    still has the NBSP word as head token; the repaired code has the token b. *)
+Theorem C09_prefix_stale_head_refuted :
+  exists src : text,
+    match ts_init src with
+    | Ok t0 =>
+        match ts_consume t0 with
+        | Ok (_, t1) =>
+            match ts_consume_line_stale false t1, ts_consume_line false t1 with
+            | Ok (l1, old), Ok (l2, new) =>
+                l1 = l2 /\ ts_position old = ts_position new /\
+                (exists tk, ts_head old = Some tk /\ t_string tk = [160]%N) /\
+                (exists tk, ts_head new = Some tk /\ t_string tk = [98]%N)
+            | _, _ => False
+            end
+        | Raise _ => False
+        end
+    | Raise _ => False
+    end.
+Proof. exists [58; 62; 32; 160; 10; 98]%N. vm_compute. repeat split; eexists; split; reflexivity. Qed.
+Print Assumptions C09_prefix_stale_head_refuted.
+
 (** Non-vacuity: a"b c"d e  is two tokens;  a#b  is one token (the repaired defect FIX-C09-1). *)
 Example C09_example_tokens :
   map obs_core (fst (ts_run [97; 34; 98; 32; 99; 34; 100; 32; 101]%N)) =
